@@ -11,6 +11,8 @@ from ..gen import programs
 from ..gen.programs import Program, make_gq_op, wire_edges, ONEQ
 from ..mon import dag as dagmon
 
+from .. import suite
+
 ID = "C12"
 LEVEL = "exploration"
 RULE = ("edit histories over the CircuitDAG API {add, insert_at (on edges the circuit reports compatible), remove_op, replace_op, "
@@ -42,6 +44,10 @@ ALPHABET = (
 
 
 def shards(tier, seed):
+    return _own_shards(tier, seed) + suite.shards(tier, seed)
+
+
+def _own_shards(tier, seed):
     out = []
     L = 2 if tier == "quick" else 3
     n = len(ALPHABET)
@@ -56,6 +62,12 @@ def shards(tier, seed):
 
 
 def floors(tier):
+    f = _own_floors(tier)
+    f.update({"suite:tests_run": 40, "suite:dag:edit:add": 500})
+    return f
+
+
+def _own_floors(tier):
     f = {"histories": 1500, "edits:applied": 15000}
     for e in ("add", "insert", "insert2", "remove", "replace", "unwrap", "group", "remove_identity", "addreg", "copy", "assign_noise"):
         f["edit:" + e] = 100
@@ -232,6 +244,13 @@ class History:
 
 
 def run_shard(spec, ctx):
+    if spec.get("kind") == "suite":
+        suite.run(ctx, "dag", suite.GROUPS[spec["group"]])
+        return
+    _own_run_shard(spec, ctx)
+
+
+def _own_run_shard(spec, ctx):
     if spec["kind"] == "exh":
         for first in spec["first"]:
             for rest in itertools.product(range(len(ALPHABET)), repeat=spec["L"] - 1):
@@ -321,6 +340,13 @@ def run_random(rng, lmax, ctx):
 
 
 def replay(case, ctx):
+    if "suite_test" in case:
+        suite.replay(case, ctx)
+        return
+    _own_replay(case, ctx)
+
+
+def _own_replay(case, ctx):
     descs = case["history"]
     init = descs[0]
     h = History(ctx, init[1], init[2], init[3])
